@@ -120,13 +120,14 @@ type vWorld struct {
 	interleave                                    func()
 	// effectProbe returns the swap whose transition is being observed; at every external effect (send,
 	// broadcast, payment, spend) the stubs compare the stored record with it (noteEffect)
-	effectProbe func() *SwapStateMachine
-	effectsSeen int
-	storeFailed bool
-	effectStale bool
-	staleAt     string
-	interleaved bool
-	yieldAt     string
+	effectProbe   func() *SwapStateMachine
+	effectsSeen   int
+	storeFailed   bool
+	spendAttempts int
+	effectStale   bool
+	staleAt       string
+	interleaved   bool
+	yieldAt       string
 	// narrowOffset is added to the pinned height ("the chain has advanced by this much")
 	narrowOffset uint32
 }
@@ -372,6 +373,7 @@ func (w *vWallet) CreateOpeningTransaction(p *OpeningParams) (string, string, st
 }
 func (w *vWallet) spend(kind string) (string, string, string, error) {
 	w.w.noteEffect("wallet_spend")
+	w.w.spendAttempts++
 	zzverif.Effect("wallet_spend_" + kind)
 	if w.w.fault("spend.err") {
 		return "", "", "", errors.New("spend failed")
